@@ -7,6 +7,8 @@ From Coq Require Import List ZArith.
 Require Import Base.C05_Np Model.C05_BC Proofs.C05_IdxProofs Proofs.C05_CondenseProofs Proofs.C05_EnforceProofs
                Proofs.C05_ChainProofs Gen.C05Gen.
 
+Lemma gen_flatten_dict_is_model : forall views, gen_flatten_dict views = flatten_dofs views.
+Proof. reflexivity. Qed.
 Lemma gen_init_bc_is_model : forall n I D, gen_init_bc n I D = init_bc n I D.
 Proof. reflexivity. Qed.
 Lemma gen_condense_A_is_model : forall R (A : list (list (nat * R))) I, gen_condense_A A I = condense_A A I.
